@@ -55,6 +55,10 @@ func gen(g *kernel.Rng, seed uint64, tier string) *kernel.Plan {
 		p.Ops = append(p.Ops, kernel.Op{K: "createStream", T: 0, N: []int64{tid, mode, dup}})
 		tid += 4 * int64(g.Range(1, 3))
 	}
+	if g.Bool(0.25) {
+		// the transport fails at some write call of W (accepting nothing, a few bytes, or everything)
+		p.Faults = append(p.Faults, kernel.Fault{K: "werr", W: "AB", At: int64(g.Range(0, 3*n+2)), Arg: g.OneOf(0, 3, 1<<40)})
+	}
 	p.Tape = kernel.GenTape(g, g.Range(0, 200), 0.3)
 	p.TapeSeed = g.U64() | 1
 	return p
@@ -116,11 +120,13 @@ func checkLinearizable(reqs []reqRec, decs []decRec) (porcupine.CheckResult, int
 	}
 	var ops []porcupine.Operation
 	for _, r := range reqs {
-		if r.err != nil || r.depStep < 0 {
-			continue
+		// send = [call, bytes handed over]; a request whose write failed is
+		// registered all the same, its interval ends when the call returned
+		ret := r.depStep
+		if r.err != nil || ret < 0 {
+			ret = r.step1
 		}
-		// send = [call, bytes handed over]
-		ops = append(ops, porcupine.Operation{ClientId: 0, Input: pin{true, r.tid}, Call: int64(r.step0) * 2, Output: true, Return: int64(r.depStep)*2 + 1})
+		ops = append(ops, porcupine.Operation{ClientId: 0, Input: pin{true, r.tid}, Call: int64(r.step0) * 2, Output: true, Return: int64(ret)*2 + 1})
 	}
 	for _, d := range decs {
 		if !d.hasTid {
@@ -149,6 +155,11 @@ func run(p *kernel.Plan) (res *kernel.Result) {
 	s := rtmpx.NewSession(p, mode, 200000)
 	s.SkipHandshake = raceEngine || p.C("hs") == 0
 	s.NoHalfClose = true
+	// the write fault counts W's write calls after the handshake
+	faultAt := s.A.Conn.Out.WErrAt
+	s.A.Conn.Out.WErrAt = -1
+	armed := false
+	wfailed := false  // touched by task Aw only
 	var reqs []reqRec // written by task Aw only
 	var decs []decRec // written by task Ar only
 	var answered, dupSent int
@@ -167,6 +178,15 @@ func run(p *kernel.Plan) (res *kernel.Result) {
 		if e != s.A {
 			return true
 		}
+		if !armed {
+			armed = true
+			if faultAt >= 0 {
+				e.Conn.Out.WErrAt = e.Conn.Out.St.Writes + faultAt
+			}
+		}
+		if wfailed {
+			return true // the connection is broken for the writer: no further requests
+		}
 		pkt := pkts[i]
 		rec := reqRec{op: i, tid: float64(op.N[0]) / 4, depStep: -1}
 		if op.K == "connect" {
@@ -178,6 +198,9 @@ func run(p *kernel.Plan) (res *kernel.Result) {
 		rec.err = e.Proto.WritePacket(pkt, 0)
 		rec.step1 = s.S.Now()
 		rec.endOff = e.Conn.Out.Total
+		if rec.err != nil {
+			wfailed = true
+		}
 		reqs = append(reqs, rec)
 		t.Evf("request", "%s tid=%v err=%v", rec.name, rec.tid, rec.err)
 		return true
@@ -321,11 +344,20 @@ func run(p *kernel.Plan) (res *kernel.Result) {
 	// direct oracle on the totally ordered event log
 	ab := s.A.Conn.Out
 	byTid := map[float64]*reqRec{}
+	okReqs := 0
 	for i := range reqs {
 		r := &reqs[i]
 		if r.err != nil {
-			return res.Fail("C04/write-error", "request %s tid=%v: %v", r.name, r.tid, r.err)
+			if !ab.WFaultFired {
+				return res.Fail("C04/write-error", "request %s tid=%v: %v", r.name, r.tid, r.err)
+			}
+			res.Stat("requests_failed_by_write_fault", 1)
+			// its bytes may or may not have reached the peer completely
+			r.depStep = ab.StepReached(r.endOff)
+			byTid[r.tid] = r
+			continue
 		}
+		okReqs++
 		r.depStep = ab.StepReached(r.endOff)
 		byTid[r.tid] = r
 	}
@@ -371,10 +403,13 @@ func run(p *kernel.Plan) (res *kernel.Result) {
 	if len(decs) != answered+dupSent {
 		return res.Fail("C04/lost-response", "the peer sent %d responses, the reader decoded %d (reader ended with %v)", answered+dupSent, len(decs), s.A.RecvErr)
 	}
-	if answered != len(reqs) {
-		return res.Fail("C04/lost-request", "%d requests written, the peer received and answered %d", len(reqs), answered)
+	if answered < okReqs || answered > len(reqs) {
+		return res.Fail("C04/lost-request", "%d requests written completely (%d attempted), the peer received and answered %d", okReqs, len(reqs), answered)
 	}
 	for _, r := range reqs {
+		if r.err != nil {
+			continue
+		}
 		if matched[r.tid] == 0 {
 			return res.Fail("C04/lost-response", "request %s tid=%v never got its response matched", r.name, r.tid)
 		}
